@@ -250,6 +250,9 @@ Proofs/Qcow2Total.vos Proofs/Qcow2Total.vok Proofs/Qcow2Total.required_vos: Proo
 Proofs/SnapChain.vo Proofs/SnapChain.glob Proofs/SnapChain.v.beautified Proofs/SnapChain.required_vo: Proofs/SnapChain.v Base/Plan.vo Model/SnapChain.vo
 Proofs/SnapChain.vio: Proofs/SnapChain.v Base/Plan.vio Model/SnapChain.vio
 Proofs/SnapChain.vos Proofs/SnapChain.vok Proofs/SnapChain.required_vos: Proofs/SnapChain.v Base/Plan.vos Model/SnapChain.vos
+Proofs/Storage.vo Proofs/Storage.glob Proofs/Storage.v.beautified Proofs/Storage.required_vo: Proofs/Storage.v Base/Arith.vo Base/Plan.vo Base/Table.vo Model/Vmdk.vo Model/VmdkDesc.vo Proofs/VmdkDesc.vo
+Proofs/Storage.vio: Proofs/Storage.v Base/Arith.vio Base/Plan.vio Base/Table.vio Model/Vmdk.vio Model/VmdkDesc.vio Proofs/VmdkDesc.vio
+Proofs/Storage.vos Proofs/Storage.vok Proofs/Storage.required_vos: Proofs/Storage.v Base/Arith.vos Base/Plan.vos Base/Table.vos Model/Vmdk.vos Model/VmdkDesc.vos Proofs/VmdkDesc.vos
 Proofs/StreamBytes.vo Proofs/StreamBytes.glob Proofs/StreamBytes.v.beautified Proofs/StreamBytes.required_vo: Proofs/StreamBytes.v Base/Arith.vo Base/Plan.vo Model/AlignedStream.vo Model/AlignedStreamB.vo Proofs/AlignedStream.vo Proofs/AlignedStreamB.vo Proofs/BlockMapped.vo Proofs/StreamReaders.vo
 Proofs/StreamBytes.vio: Proofs/StreamBytes.v Base/Arith.vio Base/Plan.vio Model/AlignedStream.vio Model/AlignedStreamB.vio Proofs/AlignedStream.vio Proofs/AlignedStreamB.vio Proofs/BlockMapped.vio Proofs/StreamReaders.vio
 Proofs/StreamBytes.vos Proofs/StreamBytes.vok Proofs/StreamBytes.required_vos: Proofs/StreamBytes.v Base/Arith.vos Base/Plan.vos Model/AlignedStream.vos Model/AlignedStreamB.vos Proofs/AlignedStream.vos Proofs/AlignedStreamB.vos Proofs/BlockMapped.vos Proofs/StreamReaders.vos
@@ -328,9 +331,9 @@ Props/C08.vos Props/C08.vok Props/C08.required_vos: Props/C08.v Model/Qcow2.vos 
 Props/C09.vo Props/C09.glob Props/C09.v.beautified Props/C09.required_vo: Props/C09.v Gen/Effects.vo Model/Effects.vo Proofs/Effects.vo
 Props/C09.vio: Props/C09.v Gen/Effects.vio Model/Effects.vio Proofs/Effects.vio
 Props/C09.vos Props/C09.vok Props/C09.required_vos: Props/C09.v Gen/Effects.vos Model/Effects.vos Proofs/Effects.vos
-Props/C10.vo Props/C10.glob Props/C10.v.beautified Props/C10.required_vo: Props/C10.v Base/Plan.vo Base/Table.vo Model/Vmdk.vo Model/VmdkDesc.vo Proofs/Vmdk.vo Proofs/VmdkDesc.vo
-Props/C10.vio: Props/C10.v Base/Plan.vio Base/Table.vio Model/Vmdk.vio Model/VmdkDesc.vio Proofs/Vmdk.vio Proofs/VmdkDesc.vio
-Props/C10.vos Props/C10.vok Props/C10.required_vos: Props/C10.v Base/Plan.vos Base/Table.vos Model/Vmdk.vos Model/VmdkDesc.vos Proofs/Vmdk.vos Proofs/VmdkDesc.vos
+Props/C10.vo Props/C10.glob Props/C10.v.beautified Props/C10.required_vo: Props/C10.v Base/Plan.vo Base/Table.vo Model/Vmdk.vo Model/VmdkDesc.vo Proofs/Vmdk.vo Proofs/VmdkDesc.vo Proofs/Storage.vo
+Props/C10.vio: Props/C10.v Base/Plan.vio Base/Table.vio Model/Vmdk.vio Model/VmdkDesc.vio Proofs/Vmdk.vio Proofs/VmdkDesc.vio Proofs/Storage.vio
+Props/C10.vos Props/C10.vok Props/C10.required_vos: Props/C10.v Base/Plan.vos Base/Table.vos Model/Vmdk.vos Model/VmdkDesc.vos Proofs/Vmdk.vos Proofs/VmdkDesc.vos Proofs/Storage.vos
 Props/C11.vo Props/C11.glob Props/C11.v.beautified Props/C11.required_vo: Props/C11.v Model/Qcow2.vo Proofs/Qcow2.vo Model/Vmdk.vo Proofs/Vmdk.vo Base/Plan.vo Base/Table.vo Model/Vhd.vo Proofs/Vhd.vo Model/Vdi.vo Proofs/Vdi.vo Model/Vhdx.vo Proofs/Vhdx.vo Model/Hds.vo Proofs/Hds.vo Model/SnapChain.vo Proofs/SnapChain.vo Model/HyperV.vo Proofs/HyperV.vo
 Props/C11.vio: Props/C11.v Model/Qcow2.vio Proofs/Qcow2.vio Model/Vmdk.vio Proofs/Vmdk.vio Base/Plan.vio Base/Table.vio Model/Vhd.vio Proofs/Vhd.vio Model/Vdi.vio Proofs/Vdi.vio Model/Vhdx.vio Proofs/Vhdx.vio Model/Hds.vio Proofs/Hds.vio Model/SnapChain.vio Proofs/SnapChain.vio Model/HyperV.vio Proofs/HyperV.vio
 Props/C11.vos Props/C11.vok Props/C11.required_vos: Props/C11.v Model/Qcow2.vos Proofs/Qcow2.vos Model/Vmdk.vos Proofs/Vmdk.vos Base/Plan.vos Base/Table.vos Model/Vhd.vos Proofs/Vhd.vos Model/Vdi.vos Proofs/Vdi.vos Model/Vhdx.vos Proofs/Vhdx.vos Model/Hds.vos Proofs/Hds.vos Model/SnapChain.vos Proofs/SnapChain.vos Model/HyperV.vos Proofs/HyperV.vos
